@@ -128,11 +128,65 @@ theorem lineage_succ_ok {r : Registry} {c : Config} {n : Nat} {d : String} {L : 
   · rintro ⟨cls, pc, deps, h1, h2, h3, h4, h5⟩
     simp [h1, h2, h3, h4, h5]
 
-theorem Registry.lookup_provides {r : Registry} {d : String} {cls : PluginClass} (h : r.lookup d = some cls) :
-    cls.provides = d ∧ cls ∈ r := by
+theorem PluginClass.makes_iff (cls : PluginClass) (d : String) : cls.makes d = true ↔ d ∈ cls.outputs := by
+  unfold PluginClass.makes PluginClass.outputs
+  simp only [Bool.or_eq_true, beq_iff_eq, List.contains_iff_mem, List.mem_append, List.mem_singleton]
+  constructor
+  · rintro (h | h)
+    · exact Or.inr h.symm
+    · exact Or.inl h
+  · rintro (h | h)
+    · exact Or.inr h
+    · exact Or.inl h.symm
+
+theorem PluginClass.makes_provides (cls : PluginClass) : cls.makes cls.provides = true := by
+  simp [PluginClass.makes]
+
+theorem Registry.lookup_mem {r : Registry} {d : String} {cls : PluginClass} (h : r.lookup d = some cls) :
+    cls.makes d = true ∧ cls ∈ r := by
   unfold Registry.lookup at h
   have h1 := List.find?_some h
   exact ⟨by simpa using h1, List.mem_of_find?_eq_some h⟩
+
+/-- registered classes have pairwise disjoint outputs (what `register` maintains) -/
+def Registry.WF (r : Registry) : Prop := r.Pairwise fun a b => a.overlaps b = false
+
+instance (r : Registry) : Decidable r.WF := by unfold Registry.WF; infer_instance
+
+theorem overlaps_of_makes {a b : PluginClass} {y : String} (ha : a.makes y = true) (hb : b.makes y = true) :
+    a.overlaps b = true := by
+  unfold PluginClass.overlaps
+  rw [List.any_eq_true]
+  exact ⟨y, (a.makes_iff y).mp ha, hb⟩
+
+/-- in a well-formed registry every output of the class of `d` is mapped to that class -/
+theorem Registry.lookup_output {r : Registry} (hw : r.WF) {d y : String} {cls : PluginClass}
+    (h : r.lookup d = some cls) (hy : cls.makes y = true) : r.lookup y = some cls := by
+  have hm := (Registry.lookup_mem h).2
+  clear h
+  induction r with
+  | nil => simp at hm
+  | cons c r ih =>
+    unfold Registry.WF at hw
+    rw [List.pairwise_cons] at hw
+    unfold Registry.lookup
+    rw [List.find?_cons]
+    by_cases hc : c.makes y = true
+    · rw [hc]
+      rcases List.mem_cons.mp hm with e | e
+      · rw [e]
+      · have := hw.1 cls e
+        rw [overlaps_of_makes hc hy] at this
+        simp at this
+    · have hc' : c.makes y = false := by simpa using hc
+      rw [hc']
+      rcases List.mem_cons.mp hm with e | e
+      · rw [e] at hy; rw [hy] at hc'; simp at hc'
+      · exact ih hw.2 e
+
+theorem Registry.lookup_key {r : Registry} (hw : r.WF) {d : String} {cls : PluginClass}
+    (h : r.lookup d = some cls) : r.lookup cls.provides = some cls :=
+  Registry.lookup_output hw h cls.makes_provides
 
 /-! ### fuel -/
 
@@ -209,45 +263,92 @@ theorem lineage_ext {r r' : Registry} (hr : r.Extends r') {c : Config} {n : Nat}
     obtain ⟨cls, pc, deps, h1, h2, h3, h4, h5⟩ := lineage_succ_ok.mp h
     exact lineage_succ_ok.mpr ⟨cls, pc, deps, hr _ _ h1, h2, h3, mapE_ok_of_forall (fun x _ b hb => ih hb) h4, h5⟩
 
-/-! ### fuel `|registry| + 1` is enough (pigeonhole on the set of types whose lineage is defined) -/
+/-! ### fuel `|registry| + 1` is enough (pigeonhole on the set of classes whose lineage is defined) -/
 
-def okAt (r : Registry) (c : Config) (n : Nat) (x : String) : Bool :=
-  match lineage r c n x with
+/-- the lineage of (any output of) class `cls`, its dependencies resolved with fuel `n` -/
+def lineageCls (r : Registry) (c : Config) (n : Nat) (cls : PluginClass) : Except Err Lineage :=
+  if dupDeps cls.dependsOn then .error .valueError else
+  match pluginConfig cls c with
+  | .error e => .error e
+  | .ok pc =>
+    match mapE (lineage r c n) cls.dependsOn with
+    | .error e => .error e
+    | .ok deps => .ok (mergeLineage (ownEntry cls pc) deps)
+
+theorem lineage_succ_cls (r : Registry) (c : Config) (n : Nat) (d : String) :
+    lineage r c (n + 1) d = match r.lookup d with
+      | none => .error .keyError
+      | some cls => lineageCls r c n cls := rfl
+
+def isOkE (x : Except Err Lineage) : Bool :=
+  match x with
   | .ok _ => true
   | .error _ => false
 
+theorem isOkE_iff {x : Except Err Lineage} : isOkE x = true ↔ ∃ L, x = .ok L := by
+  cases x <;> simp [isOkE]
+
+def okAt (r : Registry) (c : Config) (n : Nat) (x : String) : Bool := isOkE (lineage r c n x)
+def okCls (r : Registry) (c : Config) (n : Nat) (cls : PluginClass) : Bool := isOkE (lineageCls r c n cls)
+
 theorem okAt_iff {r : Registry} {c : Config} {n : Nat} {x : String} :
-    okAt r c n x = true ↔ ∃ L, lineage r c n x = .ok L := by
-  unfold okAt
-  cases lineage r c n x <;> simp
+    okAt r c n x = true ↔ ∃ L, lineage r c n x = .ok L := isOkE_iff
+
+theorem okAt_succ {r : Registry} {c : Config} {n : Nat} {x : String} :
+    okAt r c (n + 1) x = true ↔ ∃ cls, r.lookup x = some cls ∧ okCls r c n cls = true := by
+  unfold okAt okCls
+  rw [lineage_succ_cls]
+  cases r.lookup x with
+  | none => simp [isOkE]
+  | some cls => simp
+
+theorem okCls_iff {r : Registry} {c : Config} {n : Nat} {cls : PluginClass} :
+    okCls r c n cls = true ↔ dupDeps cls.dependsOn = false ∧ (∃ pc, pluginConfig cls c = .ok pc) ∧
+      ∀ x ∈ cls.dependsOn, okAt r c n x = true := by
+  unfold okCls lineageCls
+  by_cases h2 : dupDeps cls.dependsOn = true
+  · simp [h2, isOkE]
+  · simp only [h2, Bool.false_eq_true, if_false]
+    cases h3 : pluginConfig cls c with
+    | error e => simp [isOkE]
+    | ok pc =>
+      simp only
+      constructor
+      · intro h
+        cases h4 : mapE (lineage r c n) cls.dependsOn with
+        | error e => simp [h4, isOkE] at h
+        | ok deps =>
+          refine ⟨by simpa using h2, ⟨pc, rfl⟩, fun x hx => ?_⟩
+          obtain ⟨b, hb, _⟩ := mapE_ok_mem h4 x hx
+          exact okAt_iff.mpr ⟨b, hb⟩
+      · rintro ⟨_, _, h⟩
+        obtain ⟨deps, hd⟩ := mapE_isOk_of_forall (f := lineage r c n) (l := cls.dependsOn)
+          (fun x hx => okAt_iff.mp (h x hx))
+        simp [hd, isOkE]
 
 theorem okAt_mono {r : Registry} {c : Config} {n : Nat} {x : String} (h : okAt r c n x = true) :
     okAt r c (n + 1) x = true := by
   obtain ⟨L, hL⟩ := okAt_iff.mp h
   exact okAt_iff.mpr ⟨L, lineage_mono hL⟩
 
-/-- no registered type becomes defined when going from fuel `k` to `k + 1` -/
+theorem okCls_mono {r : Registry} {c : Config} {n : Nat} {cls : PluginClass} (h : okCls r c n cls = true) :
+    okCls r c (n + 1) cls = true := by
+  rw [okCls_iff] at h ⊢
+  exact ⟨h.1, h.2.1, fun x hx => okAt_mono (h.2.2 x hx)⟩
+
+/-- no registered class becomes defined when going from fuel `k` to `k + 1` -/
 def Stable (r : Registry) (c : Config) (k : Nat) : Prop :=
-  ∀ cls ∈ r, okAt r c (k + 1) cls.provides = true → okAt r c k cls.provides = true
+  ∀ cls ∈ r, okCls r c (k + 1) cls = true → okCls r c k cls = true
 
 theorem stable_all {r : Registry} {c : Config} {k : Nat} (hs : Stable r c k) (x : String)
-    (h : okAt r c (k + 1) x = true) : okAt r c k x = true := by
-  obtain ⟨L, hL⟩ := okAt_iff.mp h
-  obtain ⟨cls, _, _, h1, _⟩ := lineage_succ_ok.mp hL
-  obtain ⟨hp, hm⟩ := Registry.lookup_provides h1
-  have := hs cls hm (hp ▸ h)
-  rwa [hp] at this
+    (h : okAt r c (k + 2) x = true) : okAt r c (k + 1) x = true := by
+  obtain ⟨cls, h1, h2⟩ := okAt_succ.mp h
+  exact okAt_succ.mpr ⟨cls, h1, hs cls (Registry.lookup_mem h1).2 h2⟩
 
 theorem stable_succ {r : Registry} {c : Config} {k : Nat} (hs : Stable r c k) : Stable r c (k + 1) := by
   intro cls _ h
-  obtain ⟨L, hL⟩ := okAt_iff.mp h
-  obtain ⟨cls', pc, deps, h1, h2, h3, h4, _⟩ := lineage_succ_ok.mp hL
-  have hd : ∀ x ∈ cls'.dependsOn, ∃ b, lineage r c k x = .ok b := by
-    intro x hx
-    obtain ⟨b, hb, _⟩ := mapE_ok_mem h4 x hx
-    exact okAt_iff.mp (stable_all hs x (okAt_iff.mpr ⟨b, hb⟩))
-  obtain ⟨deps', hd'⟩ := mapE_isOk_of_forall hd
-  exact okAt_iff.mpr ⟨_, lineage_succ_ok.mpr ⟨cls', pc, deps', h1, h2, h3, hd', rfl⟩⟩
+  rw [okCls_iff] at h ⊢
+  exact ⟨h.1, h.2.1, fun x hx => stable_all hs x (h.2.2 x hx)⟩
 
 theorem stable_le {r : Registry} {c : Config} {k m : Nat} (hs : Stable r c k) (hm : k ≤ m) : Stable r c m := by
   induction hm with
@@ -255,16 +356,19 @@ theorem stable_le {r : Registry} {c : Config} {k m : Nat} (hs : Stable r c k) (h
   | step _ ih => exact stable_succ ih
 
 theorem okAt_of_stable {r : Registry} {c : Config} {k n : Nat} (hs : Stable r c k) (x : String)
-    (h : okAt r c n x = true) : okAt r c k x = true := by
+    (h : okAt r c n x = true) : okAt r c (k + 1) x = true := by
   induction n with
-  | zero => simp [okAt, lineage_zero] at h
+  | zero => simp [okAt, lineage_zero, isOkE] at h
   | succ n ih =>
-    by_cases hn : n < k
+    by_cases hn : n < k + 1
     · obtain ⟨L, hL⟩ := okAt_iff.mp h
       exact okAt_iff.mpr ⟨L, lineage_mono_le hL (by omega)⟩
-    · exact ih (stable_all (stable_le hs (by omega)) x h)
+    · have : ∃ j, n = j + 1 ∧ k ≤ j := ⟨n - 1, by omega, by omega⟩
+      obtain ⟨j, hj, hkj⟩ := this
+      subst hj
+      exact ih (stable_all (stable_le hs hkj) x h)
 
-def okCount (r : Registry) (c : Config) (k : Nat) : Nat := (r.filter fun cls => okAt r c k cls.provides).length
+def okCount (r : Registry) (c : Config) (k : Nat) : Nat := (r.filter fun cls => okCls r c k cls).length
 
 theorem filter_length_lt {l : List α} {p q : α → Bool} (hpq : ∀ a ∈ l, p a = true → q a = true)
     (hex : ∃ a ∈ l, q a = true ∧ p a = false) : (l.filter p).length < (l.filter q).length := by
@@ -295,15 +399,15 @@ theorem filter_length_lt {l : List α} {p q : α → Bool} (hpq : ∀ a ∈ l, p
 theorem okCount_lt_of_unstable {r : Registry} {c : Config} {k : Nat} (h : ¬ Stable r c k) :
     okCount r c k < okCount r c (k + 1) := by
   unfold Stable at h
-  have : ∃ cls ∈ r, okAt r c (k + 1) cls.provides = true ∧ okAt r c k cls.provides = false := by
+  have : ∃ cls ∈ r, okCls r c (k + 1) cls = true ∧ okCls r c k cls = false := by
     apply Classical.byContradiction
     intro hn
     apply h
     intro cls hm h1
-    cases h2 : okAt r c k cls.provides with
+    cases h2 : okCls r c k cls with
     | true => rfl
     | false => exact absurd ⟨cls, hm, h1, h2⟩ hn
-  exact filter_length_lt (fun a _ ha => okAt_mono ha) this
+  exact filter_length_lt (fun a _ ha => okCls_mono ha) this
 
 theorem exists_stable (r : Registry) (c : Config) : ∃ k, k ≤ r.length ∧ Stable r c k := by
   apply Classical.byContradiction
@@ -333,11 +437,19 @@ theorem lineage_fuel {r : Registry} {c : Config} {n : Nat} {d : String} {L : Lin
 
 /-! ### the entries of a lineage: one per ancestor, each determined by that ancestor alone -/
 
-/-- the data types a lineage mentions: `d` and everything it (transitively) depends on -/
+/-- the keys of a lineage: the lineage key (`provides[-1]`) of the plugin of `d` and of every
+plugin it (transitively) depends on -/
 def ancestors (r : Registry) : Nat → String → List String
   | 0, _ => []
+  | n + 1, d => match r.lookup d with
+      | some cls => cls.provides :: cls.dependsOn.flatMap (ancestors r n)
+      | none => []
+
+/-- the data types whose registration a lineage of `d` looks at -/
+def visited (r : Registry) : Nat → String → List String
+  | 0, _ => []
   | n + 1, d => d :: (match r.lookup d with
-      | some cls => cls.dependsOn.flatMap (ancestors r n)
+      | some cls => cls.dependsOn.flatMap (visited r n)
       | none => [])
 
 /-- the lineage entry of data type `a` taken by itself: providing class, version, tracked config -/
@@ -390,23 +502,27 @@ theorem lookup_mergeLineage_const {a : String} {v₀ : Option Entry} {own : Line
       · exact Or.inr h
 
 theorem mem_ancestors_succ {r : Registry} {n : Nat} {d a : String} {cls : PluginClass} (h : r.lookup d = some cls) :
-    a ∈ ancestors r (n + 1) d ↔ a = d ∨ ∃ x ∈ cls.dependsOn, a ∈ ancestors r n x := by
+    a ∈ ancestors r (n + 1) d ↔ a = cls.provides ∨ ∃ x ∈ cls.dependsOn, a ∈ ancestors r n x := by
   simp [ancestors, h]
 
+theorem mem_visited_succ {r : Registry} {n : Nat} {d a : String} {cls : PluginClass} (h : r.lookup d = some cls) :
+    a ∈ visited r (n + 1) d ↔ a = d ∨ ∃ x ∈ cls.dependsOn, a ∈ visited r n x := by
+  simp [visited, h]
+
 /-- every entry of a lineage is the entry its data type would get on its own -/
-theorem lineage_lookup {r : Registry} {c : Config} {n : Nat} {d : String} {L : Lineage}
+theorem lineage_lookup {r : Registry} (hw : r.WF) {c : Config} {n : Nat} {d : String} {L : Lineage}
     (h : lineage r c n d = .ok L) (a : String) :
     L.lookup a = if a ∈ ancestors r n d then ownEntryOf r c a else none := by
   induction n generalizing d L with
   | zero => simp [lineage_zero] at h
   | succ n ih =>
     obtain ⟨cls, pc, deps, h1, h2, h3, h4, h5⟩ := lineage_succ_ok.mp h
-    obtain ⟨hp, _⟩ := Registry.lookup_provides h1
-    have hself : ownEntryOf r c d = some ⟨cls.name, cls.version, entryConfig cls pc⟩ := by
-      simp [ownEntryOf, h1, h3]
-    have hown : (ownEntry cls pc).lookup a = if a = d then ownEntryOf r c a else none := by
-      simp only [ownEntry, lookup_cons', List.lookup_nil, hp]
-      by_cases e : a = d
+    have hkey := Registry.lookup_key hw h1
+    have hself : ownEntryOf r c cls.provides = some ⟨cls.name, cls.version, entryConfig cls pc⟩ := by
+      simp [ownEntryOf, hkey, h3]
+    have hown : (ownEntry cls pc).lookup a = if a = cls.provides then ownEntryOf r c a else none := by
+      simp only [ownEntry, lookup_cons', List.lookup_nil]
+      by_cases e : a = cls.provides
       · simp [e, hself]
       · simp [e]
     have hdep : ∀ Lx ∈ deps, ∃ x ∈ cls.dependsOn,
@@ -424,7 +540,7 @@ theorem lineage_lookup {r : Registry} {c : Config} {n : Nat} {d : String} {L : L
           constructor
           · rintro (hh | ⟨Lx, hLx, hs⟩)
             · rw [hown] at hh
-              by_cases e : a = d
+              by_cases e : a = cls.provides
               · exact Or.inl e
               · simp [e] at hh
             · obtain ⟨x, hx, hl, _⟩ := hdep Lx hLx
@@ -440,21 +556,21 @@ theorem lineage_lookup {r : Registry} {c : Config} {n : Nat} {d : String} {L : L
         by_cases hq : a ∈ ancestors r (n + 1) d
         · rw [if_pos hq, if_pos (hiff.mpr hq)]
         · rw [if_neg hq, if_neg (fun hh => hq (hiff.mp hh))]
-    · rw [hown]; by_cases e : a = d <;> simp [e]
+    · rw [hown]; by_cases e : a = cls.provides <;> simp [e]
     · intro Lx hLx
       obtain ⟨x, _, hl, hn⟩ := hdep Lx hLx
       refine ⟨?_, hn⟩
       rw [hl]; by_cases e : a ∈ ancestors r n x <;> simp [e]
 
 /-- a type that occurs in a defined lineage has an entry of its own -/
-theorem ownEntryOf_isSome_of_mem {r : Registry} {c : Config} {n : Nat} {d : String} {L : Lineage}
+theorem ownEntryOf_isSome_of_mem {r : Registry} (hw : r.WF) {c : Config} {n : Nat} {d : String} {L : Lineage}
     (h : lineage r c n d = .ok L) {a : String} (ha : a ∈ ancestors r n d) : (ownEntryOf r c a).isSome := by
   induction n generalizing d L with
   | zero => simp [lineage_zero] at h
   | succ n ih =>
     obtain ⟨cls, pc, deps, h1, h2, h3, h4, h5⟩ := lineage_succ_ok.mp h
     rcases (mem_ancestors_succ h1).mp ha with e | ⟨x, hx, hm⟩
-    · subst e; simp [ownEntryOf, h1, h3]
+    · subst e; simp [ownEntryOf, Registry.lookup_key hw h1, h3]
     · obtain ⟨Lx, hb, _⟩ := mapE_ok_mem h4 x hx
       exact ih hb hm
 
